@@ -14,7 +14,7 @@ Extraction "model.ml"
   approx merge_values values_min values_max polygon_contains polygon_contains_impl find_closest_points surface_local_value in_triangle
   area_to_feature plume_to_feature plume_rel_distance
   bezier_build bezier_eval closest_point_cartesian closest_point_spherical
-  cells2 cells3 filter_mesh
+  cells2 cells3 cells_chunk2 cells_annulus filter_mesh
   planar_distance slab_member fault_member
   distance_point_from_curved_planes line_to_feature lf_distances lf_covers line_of_layout line_of_layout_gen distance_point_from_curved_planes_sph
   euler_matrix
